@@ -605,6 +605,9 @@ class C12:
                             oc.raw = fd.read()
                 else:
                     oc = drive.create(route, root, out, piece_length=None, progress=0)
+                if not oc.ok and via_link:
+                    counters["payload_with_link_refused"] = 1        # declining to follow a link chooses no piece length
+                    return
                 if not oc.ok:
                     viol.append(oracles.V("auto-create-raised", route=route, size=size, exc=oc.excname()))
                     return
